@@ -20,3 +20,12 @@ PROPS['C04'] = dict(
     assumptions=[],
     domain=[],
 )
+
+PROPS['C16'] = dict(
+    title='Inference windows tile the text exactly and respect the size limits',
+    groups=[dict(template='c16_windows.rs')],
+    claim='',
+    not_covered=[],
+    assumptions=[],
+    domain=[],
+)
